@@ -20,7 +20,7 @@ META = dict(
     technique="exhaustive enumeration of measurement types x ensemble shapes x ALL chunkings x doses x sample counts x a fixed finite seed set; deterministic consequences checked",
     text="For 4 measurement types, 3 ensemble shapes with identical members, every composition-chunking of the ensemble axes, 2 doses, 2 sample counts and 3 "
          "seeds, noise is applied lazily and eagerly and checked for integrality, reproducibility, lazy/eager agreement, non-identical noise between "
-         "members/samples and a 6-sigma bound on the mean.",
+         "members/samples and a 6-sigma bound on the mean. Dose distributions, splits of the transform's own axes under small dask.chunk-size, two calls on the same object with an input snapshot, and dose_per_area with anisotropic scan steps are enumerated as well.",
     note="Independence and expectation are statistical claims; what is decided is their finite, seed-indexed consequence (a fixed seed set: no flakiness). "
          "Bound: ensembles <= 6 members, 6x5 base arrays.",
 )
